@@ -42,6 +42,7 @@ type c04sScn struct {
 	PreOpen  int      // streams opened (outbound) before the race
 	Race     []string // one thread each, see c04sBody
 	ConnEnds bool     // the scenario closes the connection itself (audit (1) applies)
+	Hang     bool     // the dial never completes; the transport holds the connection scope from the start of the dial (as tcp does)
 }
 
 type c04sUsage struct {
@@ -72,6 +73,7 @@ func c04sBody(sc c04sScn) func(x *vs.Exec) {
 		env := fxNewEnv(0, 0, WithResourceManager(rm))
 		for _, t := range []*fxTransport{env.TCP, env.QUIC, env.Relay} {
 			t.rm = rm
+			t.scopeEarly = sc.Hang
 		}
 		P := fxID("P")
 		env.PS.AddAddr(P.ID, ma.StringCast(c04sAddr), peerstore.PermanentAddrTTL)
@@ -141,6 +143,8 @@ func c04sBody(sc c04sScn) func(x *vs.Exec) {
 		// ----- the race -----
 		var out [8]string
 		swarmClosed := false
+		var atClose c04sUsage
+		atCloseSet := false
 		for i, r := range sc.Race {
 			switch r {
 			case "newstream":
@@ -188,9 +192,19 @@ func c04sBody(sc c04sScn) func(x *vs.Exec) {
 				s.GoPrio("transport connection dies", 1, func() { vs.Yield(); conn.conn.(*fxConn).Close(); out[i] = "transport-dies" })
 			case "swarm-close":
 				swarmClosed = true
-				s.GoPrio("Swarm.Close", 1, func() { vs.Yield(); env.Swarm.Close(); out[i] = "Swarm.Close" })
+				s.GoPrio("Swarm.Close", 1, func() {
+					vs.Yield()
+					env.Swarm.Close()
+					out[i] = "Swarm.Close"
+					// everything that is still runnable finishes, but no time passes: what is held now is held "after the
+					// swarm has been closed" for as long as some timeout takes
+					vs.SyncWait()
+					atClose, atCloseSet = c04sRead(rm, P.ID), true
+				})
 			case "dial":
-				s.GoPrio("remote-answers", 1, func() { vs.Send(-9, env.TCP.outcomeCh(c04sAddr), fxOK) })
+				if !sc.Hang {
+					s.GoPrio("remote-answers", 1, func() { vs.Send(-9, env.TCP.outcomeCh(c04sAddr), fxOK) })
+				}
 				s.Go("DialPeer", func() {
 					c, err := env.Swarm.DialPeer(context.Background(), P.ID)
 					if err == nil {
@@ -226,6 +240,9 @@ func c04sBody(sc c04sScn) func(x *vs.Exec) {
 			s.Go("teardown", func() { env.Close(); rm.Close() })
 			s.Drain()
 			return
+		}
+		if ok && x.VioKey == "" && atCloseSet && atClose != (c04sUsage{}) {
+			x.Fail("usage-not-zero-when-swarm-close-returned", "Swarm.Close has returned and everything that could still run has run (no time has passed); usage is %s (%s)", atClose, x.Outcome)
 		}
 		if ok && x.VioKey == "" && sc.ConnEnds && !swarmClosed {
 			if u := c04sRead(rm, P.ID); u != before {
@@ -292,6 +309,7 @@ func c04sScenarios(thorough bool) []c04sScn {
 		{Name: "inbound stream racing Conn.Close", Race: []string{"remote-stream", "conn-close"}, ConnEnds: true},
 		{Name: "outbound stream open racing Swarm.Close", Race: []string{"newstream-keep", "swarm-close"}},
 		{Name: "dial completing racing Swarm.Close", Race: []string{"dial", "swarm-close"}},
+		{Name: "Swarm.Close while an outbound dial hangs", Race: []string{"dial", "swarm-close"}, Hang: true},
 		{Name: "inbound connection admitted racing Swarm.Close", Race: []string{"admit", "swarm-close"}},
 		{Name: "Stream.Reset racing Conn.Close", PreOpen: 1, Race: []string{"stream-reset", "conn-close"}, ConnEnds: true},
 		{Name: "outbound stream open racing the death of the transport connection", Race: []string{"newstream", "transport-dies"}, ConnEnds: true},
